@@ -493,7 +493,10 @@ func cmdCheck(args []string) {
 			}
 			var sel []*symex.PathResult
 			for _, r := range okPaths {
-				if r.Model != nil && len(r.Cands) == 0 {
+				// (a model that interprets math.Pow or the calendar functions
+				// freely predicts observations the real functions need not
+				// give: such paths are not used for translator validation)
+				if r.Model != nil && len(r.Cands) == 0 && !r.UF {
 					sel = append(sel, r)
 				}
 			}
